@@ -387,6 +387,55 @@ theorem readUpToAux_pos (limit : Nat) : ∀ (cuts : List Nat) (acc data : Bytes)
             (limit - (acc.length + min c (min (limit - acc.length) data.length))) := by omega
         conv => rhs; rw [this, List.take_add]
 
+/-- (S9) a failing `read` call either makes `read_up_to` fail or is never made: the buffer is then
+    the one the failure-free reader yields -/
+theorem readUpToFailAux_none_or (limit fail : Nat) : ∀ (cuts : List Nat) (i : Nat) (acc data : Bytes),
+    readUpToFailAux limit fail i acc data cuts = none ∨
+    readUpToFailAux limit fail i acc data cuts = some (readUpToAux limit acc data cuts) := by
+  intro cuts
+  induction cuts with
+  | nil =>
+    intro i acc data
+    unfold readUpToFailAux readUpToAux
+    by_cases h1 : acc.length = limit
+    · simp [h1]
+    · simp only [h1, ↓reduceIte]
+      by_cases h2 : i = fail
+      · simp [h2]
+      · simp only [h2, ↓reduceIte]
+        by_cases h3 : min (limit - acc.length) data.length = 0
+        · right
+          simp only [h3, ↓reduceIte]
+          have : data.take (limit - acc.length) = [] := by
+            rw [List.take_eq_nil_iff]
+            rcases Nat.min_eq_zero_iff.mp h3 with h | h
+            · left; exact h
+            · right; exact List.eq_nil_of_length_eq_zero h
+          simp [this]
+        · simp only [h3, ↓reduceIte]
+          have ht : data.take (min (limit - acc.length) data.length) = data.take (limit - acc.length) := by
+            rw [List.take_eq_take_iff]
+            omega
+          rw [ht]
+          split
+          · right; rfl
+          · split
+            · left; rfl
+            · right; rfl
+  | cons c cs ih =>
+    intro i acc data
+    unfold readUpToFailAux readUpToAux
+    by_cases h1 : acc.length = limit
+    · simp [h1]
+    · simp only [h1, ↓reduceIte]
+      by_cases h2 : i = fail
+      · simp [h2]
+      · simp only [h2, ↓reduceIte]
+        by_cases h3 : min c (min (limit - acc.length) data.length) = 0
+        · simp [h3]
+        · simp only [h3, ↓reduceIte]
+          exact ih _ _ _
+
 /-! ## message bodies (prost derive) -/
 
 def ValidReq (r : HeaderRequest) : Prop :=
